@@ -15,6 +15,8 @@ type Task struct {
 	Free     int    // free-running cross-check runs
 	Announce string // file that receives "<program>\n<choices>" before every execution (race attribution)
 	Judge    string // "lin" (C08) or "block" (C18)
+	Deadline int64  // unix seconds after which bounds above MinBound are abandoned (0 = none)
+	MinBound int    // bounds up to this one are always completed (subject to Budget only)
 }
 
 type Finding struct {
@@ -30,6 +32,7 @@ type TaskResult struct {
 	Pruned       int
 	BoundDone    int // largest preemption bound completed (-1 none)
 	Exhausted    bool
+	TimedOut     bool
 	MaxPoints    int
 	Outcomes     int
 	Findings     []Finding
@@ -70,6 +73,12 @@ func Explore(t Task, judge func(Program, *Execution) string) TaskResult {
 			if t.Budget > 0 && res.Executions >= t.Budget {
 				capped = true
 				complete = false
+				return
+			}
+			if t.Deadline > 0 && bound > t.MinBound && res.Executions%16 == 0 && time.Now().Unix() > t.Deadline {
+				capped = true
+				complete = false
+				res.TimedOut = true
 				return
 			}
 			if t.Announce != "" {
